@@ -943,7 +943,8 @@ class ProcessSyncGroup(SyncGroup, SimulatedEBPF):
             loop.add_reader(fd, future.set_result, None)
             try:
                 await future
-            except CancelledError as error:
+            except CancelledError as e:
+                error = e  # "as error" would unbind the name again
                 self.runningValue.value = False
             else:
                 if error is None:
